@@ -161,6 +161,20 @@ CLAIMED["C05"] = dict(
     technique="Lean 4 proof (frame/purge lemmas, C20 refinement theorems) + executable-spec validator on the real output incl. fault injection + differential correspondence",
     design="DESIGN.md#c05",
 )
+CLAIMED["C08"] = dict(
+    engine="E-modify",
+    text="Lean theorems: whatever _required_cfi_directives keeps of a removed block (any keep-rule for state "
+    "directives), the kept stream opens and closes CFI procedures exactly as the block's whole stream did, from "
+    "either evaluator state (induction over the directive groups with an invariant on the two accumulators); at "
+    "a split point the directives divide in order right before the first .cfi_endproc; split_block / join_blocks "
+    "change the CFI table to exactly splitCfi / joinCfi of it. Oracle: the real evaluate_cfi_directives (C15) "
+    "before and after apply(), related through the listing's byte map by a Lean specification (coverage, state "
+    "identity without deletions, procedures one to one and in order, inserted code covered with the state of the "
+    "insertion point and its own directives). Tie: per-operation correspondence of the Lean IR model on modules "
+    "carrying CFI tables. Partial: the state-identity statement over whole rewrites is decided by the oracle.",
+    technique="Lean 4 proof (accumulator invariant by induction over directive groups) + executable-spec oracle over the real evaluator's output + differential correspondence",
+    design="DESIGN.md#c08",
+)
 
 ALL = ["C%02d" % i for i in range(1, 21)]
 
@@ -202,7 +216,7 @@ def main():
         "engines": [
             {"name": "E-abi", "path": "lean/GtirbVerif/Model/Abi", "serves_properties": ["C16", "C17"], "kind_free_text": "abstract machine + Lean models of _allocate_patch_registers, the four prologue/epilogue generators and CallPatch; tables regenerated from abi._ABIS"},
             {"name": "E-adt", "path": "lean/GtirbVerif/Model/Adt", "serves_properties": ["C20", "C09"], "kind_free_text": "Lean models of ReferenceCache, ReturnEdgeCache, make_return_cache, BlockOrdering, OffsetMapping, IdentitySet with refinement proofs"},
-            {"name": "E-modify", "path": "lean/GtirbVerif/Model/IR", "serves_properties": ["C01", "C02", "C03", "C04", "C05", "C06"], "kind_free_text": "abstract GTIRB IR + Lean models of edit_byte_interval, split_block, are_joinable/join_blocks, remove_block, insert, delete, _cleanup_modified_blocks, the offset loop of _apply_modifications; listing specification (Spec/Listing*.lean)"},
+            {"name": "E-modify", "path": "lean/GtirbVerif/Model/IR", "serves_properties": ["C01", "C02", "C03", "C04", "C05", "C06", "C08"], "kind_free_text": "abstract GTIRB IR + Lean models of edit_byte_interval, split_block, are_joinable/join_blocks, remove_block, insert, delete, _cleanup_modified_blocks, the offset loop of _apply_modifications; listing specification (Spec/Listing*.lean)"},
             {"name": "E-dwarf", "path": "lean/GtirbVerif/Model/Dwarf", "serves_properties": ["C14", "C15"], "kind_free_text": "Lean model of dwarf/_encoders,_encodable,expr,cfi,cfi_eval + regenerated tables"},
         ],
         "checks": checks,
